@@ -43,6 +43,28 @@ impl Ctx {
     pub fn is_known(&self, id: &str) -> bool {
         self.known.contains(id)
     }
+
+    /// context for code that runs cases outside the sharded driver (fuzz targets)
+    pub fn for_prop(prop: &str, seed: u64) -> Ctx {
+        Ctx {
+            prop: prop.to_string(),
+            tier: Tier::Thorough,
+            seed,
+            known: load_known(prop).iter().map(|k| k.id.clone()).collect(),
+            replay: false,
+        }
+    }
+}
+
+/// Writes a replay file for a case found outside the sharded driver and returns its path.
+pub fn write_external_replay<E: Engine>(ctx: &Ctx, case: &E::Case, violation: &Violation, origin: &str) -> PathBuf {
+    let f = Failure {
+        case: case.clone(),
+        violation: violation.clone(),
+        stage: origin.to_string(),
+        shard: 0,
+    };
+    write_replay::<E>(ctx, &f)
 }
 
 #[derive(Clone, Debug, Serialize, Deserialize)]
